@@ -306,7 +306,8 @@ struct channel_converter_unsigned_integral_nondivisible<SrcChannelV,DstChannelV,
 
         static const src_integer_t div2 = static_cast< src_integer_t >( div / 2.0 );
 
-        return DstChannelV( static_cast< dst_integer_t >(( static_cast< double >( src + div2 ) / div )));
+        // add in double: src + div2 does not fit the source's integer type for full-width sources
+        return DstChannelV( static_cast< dst_integer_t >(( static_cast< double >( src ) + div2 ) / div ));
     }
 };
 
